@@ -105,7 +105,28 @@ def k2(rep, F, tms):
             if lits and wild:
                 keep = lits
     if keep is None:
-        rep.notes.append("K2: normalize_field_tag has no literal keep-list match; rule not evaluated")
+        # the keep-list as a constant table tested with contains()
+        for n in walk(b["body"]):
+            if n.get("k") == "mcall" and n.get("m") == "contains":
+                rv = peel(n.get("recv"))
+                tbl = None
+                if isinstance(rv, dict) and rv.get("k") == "array":
+                    tbl = rv
+                elif isinstance(rv, dict) and rv.get("k") == "def" and rv.get("dk") in ("const", "assoc_const", "static"):
+                    cb = F.body_by_path.get(rv.get("def"))
+                    x = cb.get("body") if cb else None
+                    while isinstance(x, dict) and x.get("k") in ("block", "ref") and (x.get("k") == "ref" or not x.get("stmts")):
+                        x = x.get("e") if x.get("k") == "ref" else x.get("expr")
+                    if isinstance(x, dict) and x.get("k") == "array":
+                        tbl = x
+                if tbl is not None:
+                    vals = [lit_val(peel(e)) for e in tbl.get("es") or []]
+                    if vals and all(isinstance(v, str) for v in vals):
+                        keep = set(vals)
+    if keep is None:
+        # written in a way the rule does not read: nothing can be said; the floor is not applied
+        rep.notes.append("K2: normalize_field_tag has no literal keep-list the rule can read: undecided")
+        r["floor"] = 0
         return r
     r["keep_list"] = sorted(keep)
 
